@@ -216,15 +216,16 @@ JReject(line, prev) ==
 \* ---- time and memory proportional to the input (C05) -------------------------------------------
 \* One shape at growing sizes (well-formed by construction; the smallest instance of the same builder is
 \* an ordinary Decode line, checked byte by byte): every size is accepted and consumed entirely; the CPU
-\* time of the calling thread grows at most linearly - a factor 6 and a floor of 300 us absorb caches and
-\* timer granularity, a quadratic routine exceeds it by far at a size ratio of 16; allocation stays within
-\* 64 bytes per input byte.
+\* time of the calling thread grows at most linearly.  Memory management makes honest figures noisy (marking work
+\* charged to the allocating goroutine, page faults on fresh memory: up to 80 ms were seen for a 1.5 MB map that
+\* usually takes 3 ms), so the floor is 10 ms and the factor 12: the bound for the largest size (256 000 elements)
+\* is about two seconds (linear code needs 0.01 - 0.4 s), a quadratic routine needs ten or more.  Allocation stays within 64 bytes per input byte.
 JScale(line) ==
   LET obs == line.obs
       m == Len(line.lens) IN
   [ cls |-> "Scale/" \o line.shape \o ">" \o obs.out,
     fail |-> If(\A i \in 1..m : obs.outs[i] = "ok" /\ obs.ns[i] = line.lens[i], "scale_ok") \cup
-             If(\A i, j \in 1..m : i < j => obs.us[j] <= MinI(MaxI(obs.us[i], 300), 10000000) * ((line.lens[j] \div line.lens[i]) + 1) * 6, "dec_time") \cup
+             If(\A i, j \in 1..m : i < j => obs.us[j] <= MinI(MaxI(obs.us[i], 10000), 10000000) * ((line.lens[j] \div line.lens[i]) + 1) * 12, "dec_time") \cup
              If(\A i \in 1..m : obs.alloc[i] <= 64 * line.lens[i] + 1048576, "dec_alloc") ]
 
 \* the same small message decoded many times by one recycled decoder state: no single call allocates out of
